@@ -1,0 +1,11 @@
+//go:build verif
+
+package sio
+
+import (
+	eioparser "github.com/karagenc/socket.io-go/engine.io/parser"
+)
+
+// VerifDeliver hands Engine.IO packets to the manager exactly as one OnPacket call of a
+// transport does (used to drive the receive path from several deliverers at once).
+func VerifDeliver(m *Manager, packets ...*eioparser.Packet) { m.onEIOPacket(packets...) }
